@@ -117,12 +117,39 @@ def std_shards(prop, tier, seed, n=None):
     return [dict(prop=prop, tier=tier, seed=seed, shard=i, nshards=n) for i in range(n)]
 
 
+def run_long(check_case, acc, shard, nshards, offset=5):
+    """the long runs of gen.long_cases(), spread over the shards"""
+    from mvf import gen
+    for i, (name, case) in enumerate(gen.long_cases()):
+        if (i + offset) % nshards != shard or acc.out_of_time():
+            continue
+        import copy
+        for f in check_case(copy.deepcopy(case), acc):
+            if len(acc.failures) < 20:
+                acc.failures.append(f)
+
+
 def enumerate_schedules(scn, check_case, acc, max_dev, base_extra=None, max_runs=3000):
     """Delay-bounded exhaustive enumeration: every pick sequence that deviates from FIFO in at most
     max_dev decision points (decision point = idle point with >= 2 pending replies; every alternative
     candidate is tried).  Returns (runs, complete)."""
     runs = 0
     complete = True
+    # first the extreme policies, which a bounded number of deviations from FIFO does not reach: LIFO, every
+    # simulator starved in turn (its replies are released only when nothing else is pending), steps / get_data first
+    sweeps = [{"policy": "lifo"}, {"policy": "prefer", "arg": "step"}, {"policy": "prefer", "arg": "get"}] + \
+             [{"policy": "starve", "arg": sm["sid"]} for sm in scn["sims"]]
+    for sched in sweeps:
+        if acc.out_of_time():
+            complete = False
+            break
+        case = {"scenario": scn, "schedule": sched}
+        if base_extra:
+            case.update(copy.deepcopy(base_extra))
+        for f in check_case(case, acc, {}):
+            if len(acc.failures) < 20:
+                acc.failures.append(f)
+        runs += 1
     stack = [()]           # tuples of (position, pick), positions strictly increasing
     while stack:
         devs = stack.pop()
